@@ -42,6 +42,9 @@ func config(name string) pmc.Cfg {
 		base.Name, base.MaxView = name, c.MaxView
 		base.Eager = strings.HasSuffix(name, "e") // "K2@v0e": eager adversary (no lazy-delivery reduction)
 		base.Sloppy = strings.HasSuffix(name, "s") // "K1@v1s": consumer validators accept a missing block
+		if strings.HasSuffix(name, "a") { // "K2@v1a": one-block alphabet (no equivocation; the adversary's freedom is elsewhere)
+			base.Alphabet = []string{"A"}
+		}
 		if strings.HasSuffix(name, "z") { // "K1@v1z": every correct consumer rejects block Z (external validity, C04)
 			base.Alphabet = []string{"Z", "A"}
 			base.Invalid = map[int]map[string]bool{}
@@ -68,6 +71,10 @@ func config(name string) pmc.Cfg {
 		c.C, c.Silent = kit.EqualCommittee(4), []int{3}
 	case "K6": // 4 equal + an outsider with a valid key, Byzantine = leader of view 1
 		c.C, c.Byz, c.Outsider = kit.EqualCommittee(4), []int{1}, true
+	case "K8": // weights 1,7,1,1 (W=10, f=3, Q=7): the leader of view 1 is a quorum by itself; Byzantine = the light leader of view 0
+		c.C, c.Byz = kit.WeightedCommittee(1, 7, 1, 1), []int{0}
+	case "K8b": // weights 1,7,1,1: the three light members (weight 3 = f) are Byzantine, the only correct member is a quorum alone
+		c.C, c.Byz = kit.WeightedCommittee(1, 7, 1, 1), []int{0, 2, 3}
 	case "K7": // 7 equal, two Byzantine members (leaders of views 0 and 1)
 		c.C, c.Byz = kit.EqualCommittee(7), []int{0, 1}
 	default:
@@ -97,6 +104,7 @@ var menus = map[string]string{
 	"M1":   "PC",
 	"M2":   "PC PP0",
 	"M3":   "PC VC",
+	"M3T":  "PP0 VCT", // votes whose (valid) proof carries a non-standard type in the part its Byzantine leader re-signed
 	"M4":   "PC NV",
 	"M4F":  "PC NVF",
 	"M4W":  "PC NVW NVH",
@@ -112,6 +120,14 @@ func plan(prop, tier string) []run {
 	q := tier == "quick"
 	var r []run
 	add := func(cfg, menu string, d int, budget time.Duration) {
+		for i := range r { // same run requested twice (quick portfolio + thorough portfolio): keep the larger budget
+			if r[i].cfg == cfg && r[i].menu == menu && r[i].d == d && r[i].diffK == 0 && r[i].liveN == 0 {
+				if budget > r[i].budget {
+					r[i].budget = budget
+				}
+				return
+			}
+		}
 		r = append(r, run{cfg: cfg, menu: menu, prims: menus[menu], d: d, budget: budget, maxV: 2})
 	}
 	if prop == "C13" || prop == "C17" {
@@ -141,8 +157,21 @@ func plan(prop, tier string) []run {
 		if !q {
 			n, cap = 6000, 60000
 		}
-		for _, c := range [][2]string{{"K1", "M1"}, {"K2", "M2"}, {"K3", "M3"}, {"K1", "M4"}} {
+		for _, c := range [][2]string{{"K1", "M1"}, {"K2", "M2"}, {"K3", "M3"}, {"K1", "M4"}, {"K8", "M1"}} {
 			r = append(r, run{cfg: c[0], menu: c[1], prims: menus[c[1]], budget: 60 * time.Second, maxV: 2, liveN: n, cap: cap})
+		}
+		// exhaustively explored view-bounded spaces (one-block alphabet): here the extension starts from deep states too
+		// (nodes prepared in different views, half-finished elections). quick: every state of the small spaces and a
+		// fixed-stride subset of the larger one; thorough: every state.
+		all := pmc.LiveAll
+		r = append(r, run{cfg: "K8@v1a", menu: "M1", prims: menus["M1"], budget: 60 * time.Second, maxV: 1, liveN: all})
+		r = append(r, run{cfg: "K1@v0a", menu: "M1", prims: menus["M1"], budget: 60 * time.Second, maxV: 0, liveN: all})
+		r = append(r, run{cfg: "K8b@v1a", menu: "M1", prims: menus["M1"], budget: 60 * time.Second, maxV: 1, liveN: all})
+		if q {
+			r = append(r, run{cfg: "K1@v1a", menu: "M1", prims: menus["M1"], budget: 60 * time.Second, maxV: 1, liveN: -400})
+		} else {
+			r = append(r, run{cfg: "K1@v1a", menu: "M1", prims: menus["M1"], budget: 120 * time.Second, maxV: 1, liveN: all})
+			r = append(r, run{cfg: "K2@v1a", menu: "M2", prims: menus["M2"], budget: 300 * time.Second, maxV: 1, liveN: -20000})
 		}
 		return r
 	}
@@ -159,21 +188,31 @@ func plan(prop, tier string) []run {
 			return r
 		}
 	}
+	// the quick portfolio; the thorough tier runs the same configurations first, with four times the budget
+	mul := time.Duration(1)
+	if !q {
+		mul = 4
+	}
+	{
+		add("K1", "M1", 0, mul*25*time.Second)      // exhaustive (~4e5 states)
+		add("K2@v0e", "M2", 0, mul*15*time.Second)  // equivocating proposer, eager adversary, no timeouts: exhaustive
+		add("K3b@v0e", "M2", 0, mul*15*time.Second) // weighted, two Byzantine members: exhaustive
+		add("K1@v1e", "M1", 0, mul*15*time.Second)  // eager PREPARE/COMMIT, one view change: exhaustive
+		add("K3~d", "M1", 0, mul*10*time.Second)    // weighted committee, descending storage order
+		add("K1L@v1", "M1", 0, mul*10*time.Second)  // long member ids with a common prefix
+		add("K1@v1", "M1", -1, mul*10*time.Second)  // L2: every single-delivery order (no flush macro), one view change
+		add("K2@v0e", "M2", -1, mul*15*time.Second) // L2 under an equivocating proposer
+		add("K2^2@v0e", "M2", 0, mul*15*time.Second) // two heights, equivocating proposer at both: exhaustive
+		add("K1^2@v1", "M1", 0, mul*15*time.Second)  // two heights with a view change: exhaustive
+		add("K2", "M2", 0, mul*12*time.Second)
+		if prop == "C11" || prop == "C09" || !q {
+			add("K2@v1a", "M3T", 0, mul*25*time.Second) // correct leader of view 1 elected with an odd-typed (valid) proof: exhaustive
+		}
+		add("K1", "MALL", 0, mul*15*time.Second)
+		add("K2", "MALL", 0, mul*15*time.Second)
+		add("K6", "M7", 0, mul*10*time.Second)
+	}
 	if q {
-		add("K1", "M1", 0, 25*time.Second)      // exhaustive (~4e5 states)
-		add("K2@v0e", "M2", 0, 15*time.Second)  // equivocating proposer, eager adversary, no timeouts: exhaustive
-		add("K3b@v0e", "M2", 0, 15*time.Second) // weighted, two Byzantine members: exhaustive
-		add("K1@v1e", "M1", 0, 15*time.Second)  // eager PREPARE/COMMIT, one view change: exhaustive
-		add("K3~d", "M1", 0, 10*time.Second)    // weighted committee, descending storage order
-		add("K1L@v1", "M1", 0, 10*time.Second)  // long member ids with a common prefix
-		add("K1@v1", "M1", -1, 10*time.Second)  // L2: every single-delivery order (no flush macro), one view change
-		add("K2@v0e", "M2", -1, 15*time.Second) // L2 under an equivocating proposer
-		add("K2^2@v0e", "M2", 0, 15*time.Second) // two heights, equivocating proposer at both: exhaustive
-		add("K1^2@v1", "M1", 0, 15*time.Second)  // two heights with a view change: exhaustive
-		add("K2", "M2", 0, 12*time.Second)
-		add("K1", "MALL", 0, 15*time.Second)
-		add("K2", "MALL", 0, 15*time.Second)
-		add("K6", "M7", 0, 10*time.Second)
 		return r
 	}
 	// thorough: the whole portfolio (§4.2): eager view-bounded configurations to exhaustion, then every
@@ -183,7 +222,7 @@ func plan(prop, tier string) []run {
 			add(k, m, 0, 40*time.Second)
 		}
 	}
-	for _, k := range []string{"K1", "K2", "K3", "K3b", "K4", "K5", "K6", "K1~d", "K2~d"} {
+	for _, k := range []string{"K1", "K2", "K3", "K3b", "K4", "K5", "K6", "K8", "K1~d", "K2~d"} {
 		for _, m := range []string{"M0", "M1", "M2", "M3", "M4", "M4F", "M4W", "M6", "M7"} {
 			if m == "M7" && k != "K6" {
 				continue
@@ -290,10 +329,11 @@ func main() {
 		}
 		info := map[string]interface{}{"config": rn.cfg, "menu": rn.menu, "primitives": rn.prims, "fine_grained_deliveries": rn.d, "max_view": cfg.MaxView,
 			"states": e.States, "transitions": e.Transitions, "bfs_depth": e.MaxDepth, "real_local_steps": e.RealSteps, "exhaustive": e.Exhaustive,
-			"stop": e.StopReason, "distinct_outcomes": len(e.Outcomes), "known_finding_hits": e.KnownHits, "wall_s": time.Since(t0).Seconds()}
+			"stop": e.StopReason, "messages_by_primitive": e.MsgsByPrim(), "distinct_outcomes": len(e.Outcomes), "known_finding_hits": e.KnownHits, "wall_s": time.Since(t0).Seconds()}
 		runs = append(runs, info)
 		if *verbose {
 			fmt.Fprintf(os.Stderr, "%s/%s d=%d: states=%d trans=%d depth=%d real=%d validated=%d exhaustive=%v (%s) outcomes=%d known=%v lstates=%d msgs=%d %.1fs\n", rn.cfg, rn.menu, rn.d, e.States, e.Transitions, e.MaxDepth, e.RealSteps, e.Validated, e.Exhaustive, e.StopReason, len(e.Outcomes), e.KnownHits, e.NumLocal(), e.NumMsgs(), time.Since(t0).Seconds())
+			fmt.Fprintf(os.Stderr, "  messages by primitive: %v\n", e.MsgsByPrim())
 		}
 		for _, f := range e.Found {
 			rf := e.Render(f)
@@ -313,7 +353,7 @@ func main() {
 			samples = append(samples, e.SampleTrace())
 		}
 		// timed extension (C05): bounded liveness from every explored state
-		if rn.liveN > 0 {
+		if rn.liveN != 0 {
 			t1 := time.Now()
 			strategies := []string{"silent", "helpful", "spoiler", "equivocator", "prepare-only"}
 			lr := e.Liveness(rn.liveN, strategies, *tier != "quick")
